@@ -469,6 +469,40 @@ def fixed_templates():
         "init": [asg("x", [(F(1), ONE)]), asg("y", [(F(3), ONE)])],
         "body": [("simul", [("assign", "x", [(F(1, 2), [(F(1), V("y"))]), (F(1, 2), [(F(1), V("x"))])], ("true",), "x"),
                             asg("y", [(F(1), V("x")), (F(1), V("y"))])])]}, ["x", "y", "x*y"]))
+    def atom(v, op, c):
+        return ("atom", [(F(1), V(v))], op, [(F(c), ONE)] if c else [])
+
+    def inc(v, k=1):
+        return asg(v, [(F(1), V(v)), (F(k), ONE)])
+    # a later branch assigns a variable that only an EARLIER branch condition tests, then goes on
+    T.append(("elif_assigns_earlier_cond_var", {
+        "vars": ["s", "u", "y", "z"], "s0": {}, "guard": ("true",),
+        "init": [asg("s", []), asg("u", []), asg("y", []), asg("z", [])],
+        "body": [("draw", "u", ("bernoulli", F(1, 2)), ("true",), "u"),
+                 ("if", [atom("s", "==", 1), atom("u", "==", 1)],
+                  [[inc("y")], [asg("s", [(F(1), ONE)]), inc("z", 2)]], [])]}, ["y", "z", "s", "s*z"]))
+    # the same non-reduced atom tested twice, its right-hand side variable reassigned in between
+    T.append(("same_atom_twice", {
+        "vars": ["a", "b", "x", "y"], "s0": {}, "guard": ("true",),
+        "init": [asg("a", []), asg("b", []), asg("x", []), asg("y", [])],
+        "body": [("draw", "x", ("bernoulli", F(1, 2)), ("true",), "x"),
+                 ("if", [("atom", [(F(1), V("x"))], ">", [(F(1), V("y"))])], [[inc("a")]], []),
+                 ("draw", "y", ("bernoulli", F(1, 3)), ("true",), "y"),
+                 ("if", [("atom", [(F(1), V("x"))], ">", [(F(1), V("y"))])], [[inc("b")]], [])]}, ["a", "b", "a*b", "b*x"]))
+    # a finitely valued variable whose two values lie in [0, 1] but are not 0 / 1; its square survives
+    T.append(("fraction_valued_flag", {
+        "vars": ["energy", "pos", "step"], "s0": {}, "guard": ("true",),
+        "init": [asg("energy", []), asg("pos", []), asg("step", [(F(1), ONE)])],
+        "body": [asg("energy", [(F(1), V("energy")), (F(1), V("step", 2))]),
+                 ("assign", "step", [(F(1, 2), [(F(1, 2), ONE)]), (F(1, 2), [(F(1), ONE)])], ("true",), "step"),
+                 asg("pos", [(F(1), V("pos")), (F(1), V("step"))])]}, ["energy", "pos", "step**2", "energy*step"]))
+    # a user-written disjunction whose two sides overlap on the same variable
+    T.append(("overlapping_or", {
+        "vars": ["hits", "x"], "s0": {}, "guard": ("true",),
+        "init": [asg("hits", []), asg("x", [])],
+        "body": [("draw", "x", ("duniform", 0, 3), ("true",), "x"),
+                 ("if", [("or", atom("x", "<=", 1), ("and", atom("x", ">=", 1), atom("x", "<=", 2)))], [[inc("hits")]], [])]},
+              ["hits", "hits**2", "hits*x"]))
     items = []
     for name, P, goals in T:
         items.append({"id": "tmpl-" + name, "text": gen.render(P), "T": P, "params": [], "types": None, "points": [{}],
